@@ -43,7 +43,14 @@ const (
 
 // routerNames: deliberately of different lengths; the order of their hashes (which the
 // router uses to break ties) is unrelated to the order of the indices.
-var routerNames = []string{"/r0", "/net/r1", "/r2/x", "/net/r3", "/r4", "/r5/y/z"}
+var routerNames = namesFlat
+
+var namesFlat = []string{"/r0", "/net/r1", "/r2/x", "/net/r3", "/r4", "/r5/y/z"}
+
+// namesNested: router names that are prefixes of one another (a site router /r0 and its gateway
+// /r0/gw): legal, and routing must not care (all the routers' own prefixes are set apart by keyword
+// components). Seeded C18-r10-2 ignored neighbours whose name extends the router's own.
+var namesNested = []string{"/r0", "/r0/gw", "/r2/x", "/r2", "/r0/gw/z", "/r2/x/y"}
 
 // Cmd is one recorded management command of a router.
 type Cmd struct {
